@@ -76,9 +76,12 @@ inst = values(8)
 PATTERNS = ["a", "b", "c", "ab", "ba", "^a", "a$", "b$", "^b", "^$", "", "a|b", "^ab?$", ".", "^.$", "^..$", "a+",
             "a*", "(a)\\1", "(b)\\1", "[ab]c?", "^[^a]", "^[^a]*$", "a{2}", "(?:a|b)$", "^(a|b)+$", "b{1,2}$",
             "^a.*c$", "[0-9]", "^[0-9]+$", "\\.", "\\$", "^\\^", "c|^$", "(?:ab){2}", "^a|b$", "a.b", "bb",
-            "\U0001F600", "é", "^\U0001F600$", " ", "^.{2,3}$", "x"]
+            "\U0001F600", "é", "^\U0001F600$", " ", "^.{2,3}$", "x", "(?i)AB", "(?P<n>a)(?P=n)", "a\\$", "^[0-9]+\\$"]
 patterns = st.sampled_from(PATTERNS)
 # smaller pool for patternProperties names, so that several patterns meet the same keys
 PP_PATTERNS = ["", "a", "b", "^a", "b$", "a|b", "(a)\\1", "(b)\\1", "^ab?$", ".", "^$", "[0-9]", "c", "^b", "ab", "^%",
-               "%s", "a%", "^a$", "^ab$", "^b$"]
+               "%s", "a%", "^a$", "^ab$", "^b$",
+               # expressions that are complete only as a whole: global inline flags, group names (two of them using
+               # the same name are fine as long as nobody pastes them into ONE expression)
+               "(?i)A", "(?P<n>a)", "(?P<n>b)b", "(?s)a.b"]
 pp_patterns = st.sampled_from(PP_PATTERNS)
